@@ -162,6 +162,9 @@ func (e *Exec) globalVar(o *types.Var) string {
 	if tag, ok := e.w.Sentinels[o]; ok {
 		return fmt.Sprintf("(E %d)", tag)
 	}
+	if o.Pkg().Path() == "os" && o.Name() == "ErrNotExist" {
+		return "osErrNotExist"
+	}
 	name := "g_" + sanitize(o.Pkg().Name()+"_"+o.Name())
 	e.global(name, fmt.Sprintf("(declare-const %s %s)", name, sortOf(o.Type())))
 	if isErrorType(o.Type()) {
